@@ -190,6 +190,20 @@ var bodyFiles = map[string]*facts.BodyFile{
 		Fns: []*facts.FnSpec{
 			{Dir: "util", Name: "StringContainsAny", Lean: "stringContainsAny"},
 			{Dir: "util", Name: "StringSliceContains", Lean: "stringSliceContains"},
+			{Dir: "driver/network", Recv: "Driver", Name: "determineCurrentPriv", Lean: "determineCurrentPriv",
+				Doc: "`lvs` = the values of the map `d.PrivilegeLevels` in the order this iteration yields them (arbitrary: the " +
+					"theorems quantify over it), `notContains l` = `l.NotContains`, `patMatch l` = `l.patternRe.MatchString`.",
+				Binders:    "(lvs : List Priv.Level) (notContains : Priv.Level → List Bytes) (patMatch : Priv.Level → Bytes → Bool)",
+				BinderArgs: "lvs notContains patMatch", Captures: []string{"priv"},
+				Vals: map[string]facts.Val{
+					"recv.PrivilegeLevels": {Lean: "lvs", Ty: "olist:Priv.Level"},
+					"priv.NotContains":     {Lean: "(notContains priv)", Ty: "list"},
+					"priv.Name":            {Lean: "priv.name", Ty: "bytes"},
+				},
+				Funcs: map[string]facts.LibFn{
+					"util.StringContainsAny":      {Args: []string{"bytes", "list"}, Ret: []string{"bool"}, Tmpl: "(stringContainsAny %0 %1)"},
+					"priv.patternRe.MatchString": {Args: []string{"bytes"}, Ret: []string{"bool"}, Tmpl: "(patMatch priv %0)"},
+				}},
 			{Dir: "driver/network", Recv: "Driver", Name: "processAcquirePriv", Lean: "processAcquirePriv",
 				Doc: "`L` = `d.PrivilegeLevels` (association list keyed by `Name`), `possible` / `detErr` = what " +
 					"`determineCurrentPriv(currentPrompt)` returned, `path cur tgt` = `buildPrivChangeMap(cur, tgt, nil)`; " +
